@@ -1826,13 +1826,21 @@ def check_required_steps(ck, rule, prog, body, steps):
                         nt_ = body.blocks[x_].term
                         if nt_.k == "call" and nt_.callee.method == "next" and nt_.callee.trait == "std::iter::Iterator" and nt_.args:
                             loop_roots |= roots_(pv_.of_operand(body, nt_.args[0]))
-            is_len = lambda atoms: any(a[0] == "call" and a[1].rsplit("::", 1)[-1] in ("len", "count") for a in atoms) and bool(roots_(atoms) & loop_roots)
+            def same_coll(atoms):
+                """the tested collection is the one the loop walks: they share a FIELD (`self.orpha_diseases`), or - when neither is a field of
+                something - a parameter"""
+                r_ = roots_(atoms)
+                fa, fb = {x for x in r_ if x[0] == "field"}, {x for x in loop_roots if x[0] == "field"}
+                if fa or fb:
+                    return bool(fa & fb)
+                return bool(r_ & loop_roots)
+            is_len = lambda atoms: any(a[0] == "call" and a[1].rsplit("::", 1)[-1] in ("len", "count") for a in atoms) and same_coll(atoms)
             for z in zero_test_edges(body, pv_, is_len):
                 for (sb_, tg_) in z["zero_edges"]:
                     if len([p_ for p_ in body.pred[tg_] if p_ in body.reach]) == 1:
                         blocks.add(tg_)
             for ebi, et in body.calls():
-                if et.callee.method == "is_empty" and len(et.args) == 1 and roots_(pv_.of_operand(body, et.args[0])) & loop_roots:
+                if et.callee.method == "is_empty" and len(et.args) == 1 and same_coll(pv_.of_operand(body, et.args[0])):
                     for (sb_, tg_) in positive_edges(body, pv_, ebi):
                         if len([p_ for p_ in body.pred[tg_] if p_ in body.reach]) == 1:
                             blocks.add(tg_)
